@@ -227,7 +227,7 @@ META = dict(
     level="proof",
     trusted_base=["CBMC 6.11 (calloc/memcpy models on a full 64 KiB page), minisat",
                   "probe family: {defined, imported} memory x {start, no start}; 4 active segments (overlapping, page end, imported-global offset) + 1 passive; 6 globals of every type"],
-    assumptions=["module shapes enumerated (3 probe modules); the imported-global offset is symbolic in 20..23; all other values of the modules are fixed by the module text"],
+    assumptions=["E/S emitter contracts: array.c's growth step enters through the contract stub of harness/e_expr.c (discharged on the real array.c by job A.ensure_capacity.4, realloc/calloc being CBMC's library models); stack heights <= 2^24, label stacks <= 2^16; the string builder is the ghost recorder (its real implementation is under contract in C10); operand-stack entries hold valid value types (validated module)", "module shapes enumerated (3 probe modules); the imported-global offset is symbolic in 20..23; all other values of the modules are fixed by the module text"],
     explanation="Contracts on <module>Instantiate and the export wrappers of w2c2-generated C: declared sizes, every byte of memory 0 (symbolic index) equals the segments applied in order "
                 "and zero elsewhere, for defined and imported memories; globals from constants (NaN payloads) and imported globals; imports bound to the resolver's objects; start exactly once "
                 "after everything; persistence and independence of two instances; documented export symbols.",
